@@ -669,6 +669,19 @@ void runObj(const json& ep)
         else if (name == "setData" && obj)
         {
             o.obj().kv("e", "obj.setData").kv("cls", cls).raw("args", op.dump());
+            // the same arguments on a fresh object that carries only this object's header bytes
+            std::vector<uint8_t> hdrBytes = obj->raw();
+            const std::map<std::string, size_t> hdrSize = {{"can", 16}, {"canfd", 16}, {"lin", 8}, {"eth", 6}, {"analog", 16}, {"cm", 26}, {"if", 36}};
+            if (hdrSize.count(cls) && hdrBytes.size() >= hdrSize.at(cls))
+            {
+                hdrBytes.resize(hdrSize.at(cls));
+                auto fresh = make(cls);
+                fresh->load(hdrBytes);
+                Out scratch;
+                scratch.obj();
+                if (setData(*fresh, op, scratch))
+                    o.bytes("freshraw", fresh->raw());
+            }
             if (!setData(*obj, op, o))
                 o.kv("nobuilder", true);
             logObj(o, *obj);
